@@ -97,53 +97,51 @@ func (s *SpokFile) buildGraph(requested ...string) (*dag.Graph[string, task.Task
 	// DAG of tasks using the name as the unique id
 	graph := dag.New[string, task.Task]()
 
-	// TODO: Make this recursive so it will go through dependencies of dependencies
-	for _, name := range requested {
-		requestedTask, ok := s.Tasks[name]
+	// visit adds a task and (recursively) everything it depends on to the graph
+	var visit func(name, parent string) error
+	visit = func(name, parent string) error {
+		current, ok := s.Tasks[name]
 		if !ok {
 			closest := s.findClosestMatch(name)
-			err := fmt.Errorf("Spokfile has no task %q", name)
-			if closest != "" {
-				// We have a close enough match to do a "did you mean X?"
-				err = fmt.Errorf("Spokfile has no task %q. Did you mean %q?", name, closest)
-			}
-			return nil, err
-		}
-		// Add the task as a vertex to the graph if it doesn't already exist
-		if !graph.ContainsVertex(name) {
-			err := graph.AddVertex(name, requestedTask)
-			if err != nil {
-				return nil, fmt.Errorf("could not add vertex for task %s: %w", name, err)
-			}
-		}
-
-		// For all of this tasks dependencies, do the same
-		for _, dep := range requestedTask.TaskDependencies {
-			depTask, ok := s.Tasks[dep]
-			if !ok {
-				closest := s.findClosestMatch(dep)
-				err := fmt.Errorf("Task %q declares a dependency on task %q, which does not exist", requestedTask.Name, dep)
+			if parent == "" {
+				err := fmt.Errorf("Spokfile has no task %q", name)
 				if closest != "" {
 					// We have a close enough match to do a "did you mean X?"
-					err = fmt.Errorf("Task %q declares a dependency on task %q, which does not exist. Did you mean %q?", requestedTask.Name, dep, closest)
+					err = fmt.Errorf("Spokfile has no task %q. Did you mean %q?", name, closest)
 				}
-				return nil, err
+				return err
 			}
-			s.logger.Debug("Task %s depends on task %s", requestedTask.Name, depTask.Name)
-			if !graph.ContainsVertex(dep) {
-				err := graph.AddVertex(dep, depTask)
-				if err != nil {
-					return nil, fmt.Errorf("could not add vertex for task %s: %w", dep, err)
-				}
+			err := fmt.Errorf("Task %q declares a dependency on task %q, which does not exist", parent, name)
+			if closest != "" {
+				// We have a close enough match to do a "did you mean X?"
+				err = fmt.Errorf("Task %q declares a dependency on task %q, which does not exist. Did you mean %q?", parent, name, closest)
 			}
+			return err
+		}
+		if graph.ContainsVertex(name) {
+			// Already expanded (also what stops us going round a cycle forever)
+			return nil
+		}
+		if err := graph.AddVertex(name, current); err != nil {
+			return fmt.Errorf("could not add vertex for task %s: %w", name, err)
+		}
 
-			// Now create the dependency connection between the parent task and this one
-			// dep is the parent here because it must be run before the task we're
-			// currently in
-			err := graph.AddEdge(dep, name)
-			if err != nil {
-				return nil, fmt.Errorf("could not add edge %s -> %s: %w", dep, name, err)
+		for _, dep := range current.TaskDependencies {
+			s.logger.Debug("Task %s depends on task %s", current.Name, dep)
+			if err := visit(dep, name); err != nil {
+				return err
 			}
+			// dep is the parent here because it must be run before the task we're currently in
+			if err := graph.AddEdge(dep, name); err != nil {
+				return fmt.Errorf("could not add edge %s -> %s: %w", dep, name, err)
+			}
+		}
+		return nil
+	}
+
+	for _, name := range requested {
+		if err := visit(name, ""); err != nil {
+			return nil, err
 		}
 	}
 
@@ -173,6 +171,10 @@ func (s *SpokFile) Run(stream iostream.IOStream, runner shell.Runner, force bool
 	runOrder, err := dag.Sort()
 	if err != nil {
 		return nil, err
+	}
+	if len(runOrder) != dag.Order() {
+		// Kahn's algorithm never emits the members of a cycle (or anything downstream of one)
+		return nil, errors.New("graph contains a cycle and cannot be sorted")
 	}
 	names := make([]string, 0, len(runOrder))
 	for _, taskToRun := range runOrder {
